@@ -347,6 +347,8 @@ class LinalgProxy:
                 w = contracts.uf_array('eigh_w', (A,), (n,))
                 v = contracts.uf_array('eigh_v', (A,), (n, n))
                 return w, v
+            if ENG.eigh_contract:
+                return contracts.eigh(A)
             raise Unsupported('eigh of symbolic matrix')
         return _np.linalg.eigh(A, *a, **k)
 
